@@ -118,7 +118,7 @@ def evaluate_tls(spec):
                             break
     both = bool(conn.truth[False]) and bool(conn.truth[True])
     labels = ["tls", "v6" if ep["v6"] else "v4", "ith-part-ith-packet" if strong else "membership-only",
-              "-m:" + ("absent" if out is None else "bare" if out == 8080 and not spec["opts"]["m"] else "target-is-the-client-port")]
+              "interfaces:" + ("+idle" if (spec.get("container") or {}).get("idle_ifaces") else "1"), "-m:" + ("absent" if out is None else "bare" if out == 8080 and not spec["opts"]["m"] else "target-is-the-client-port")]
     return {"sig": sig, "detail": detail, "nontrivial": multi and both, "labels": labels}
 
 
@@ -222,9 +222,12 @@ def tls_strategy(tier):
             sc.update(opts={"m": []}, out_sport=8080)
         elif mode == 2:
             sc.update(opts={"m": ["%d:%d" % (ep["sport"], ep["cport"])]}, out_sport=ep["cport"])
+        elif mode == 3:
+            # the capture describes further interfaces (without packets) with other time parameters, before or between the packets
+            sc["container"] = {"idle_ifaces": [[0, 3, 0], [(sc["tseed"] % 7), 9, 3600]][:1 + sc["tseed"] % 2]}
         return sc
     return st.builds(with_map, strategies.single_tls_scenario(max_records=8, max_len=800 if tier == "quick" else 4000, delivery=deliv),
-                     st.sampled_from([0, 0, 0, 0, 0, 0, 0, 1, 2, 2]))
+                     st.sampled_from([0, 0, 0, 0, 0, 0, 0, 1, 2, 2, 3, 3]))
 
 
 def stages(tier):
